@@ -24,6 +24,8 @@
 //              i = from a task spawned INSIDE the isolate region before suspending (isolated work; implies isolate),
 //              w = from a foreign thread that first waits until a task spawned before the suspension ("prework", not
 //                  isolated) has been executed: the liveness clause "the thread that suspended keeps executing other work"
+//              c = like f, but the foreign thread first CANCELS the task_group the suspended task belongs to (task_group containers): the
+//                  continuation must still run exactly once and the wait must return (a suspended task is not skipped by cancellation)
 //              UPPER CASE letter: the suspension is made inside this_task_arena::isolate
 //   nwork      number of additional plain tasks ("other work")
 //   nest       bit 2 (value 4): the main thread calls the blocking tbb::finalize without waiting for the foreign resumers
@@ -92,7 +94,8 @@ static int g_nforeign_bodies = 0;
 
 static char lower(char c) { return (c >= 'A' && c <= 'Z') ? char(c - 'A' + 'a') : c; }
 static bool isolated_mode(char c) { return (c >= 'A' && c <= 'Z') || c == 'i'; }
-static bool foreign_mode(char c) { c = lower(c); return c == 'f' || c == 'w'; }
+static bool foreign_mode(char c) { c = lower(c); return c == 'f' || c == 'w' || c == 'c'; }
+static bool has_cancel_mode() { for (char c : g_modes) if (lower(c) == 'c') return true; return false; }
 
 // gating for targeted schedules
 static volatile bool g_published0 = false, g_resumed0 = false;
@@ -202,6 +205,7 @@ static void suspending_task(int i) {
 static void check_after_wait(const char* what) {
     for (int i = 0; i < g_NS; ++i) {
         if (g_container == "outer" && i == 0) continue;
+        if (has_cancel_mode() && !S[i].cb_runs) continue;     // the group was cancelled before this task started: legitimately skipped
         if (!S[i].cont_done) viol(std::string(what) + " returned while suspension " + std::to_string(i) + " had not continued (wait completed over a suspended task)");
     }
     verif::note("wait_done", 0, 0);
@@ -310,7 +314,7 @@ static void main_body() {
     // exists to clear it, the arena is never destroyed, and the blocking tbb::finalize below spins forever in
     // threading_control::wait_last_reference — a defect of the library outside this property; see the check's report.)
     if (!(g_flags & 4)) while (g_foreign_done.load() < g_nforeign_bodies) verif::pause_point();
-    tbb::finalize(h);
+    try { tbb::finalize(h); } catch (const std::exception& e) { viol(std::string("tbb::finalize threw: ") + e.what()); }
 }
 
 static void foreign_body(int k, int nf) {
@@ -326,6 +330,7 @@ static void foreign_body(int k, int nf) {
             // mode w: resume only after the work that was spawned before the suspension has been executed
             if (sp && lower(g_modes[mine[j]]) == 'w' && !S[mine[j]].prework_done.load()) sp = nullptr;
             if (sp) {
+                if (lower(g_modes[mine[j]]) == 'c' && g_tg) { verif::note("cancel_group", (uint64_t)mine[j], 0); g_tg->cancel(); }
                 do_resume(mine[j], sp);
                 if (mine[j] == 0) g_resumed0 = true;
                 done[j] = true; --left; progress = true;
@@ -333,8 +338,10 @@ static void foreign_body(int k, int nf) {
         }
         if (!progress) verif::pause_point();
     }
-    g_foreign_done.fetch_add(1);
+    // (mode c: task_group::cancel auto-initialises this thread as an external thread of the library; a blocking tbb::finalize
+    // by the main thread must come after this thread detached, so the thread counts as done only then)
     governor::terminate_external_thread();
+    g_foreign_done.fetch_add(1);
 }
 
 // random schedule, except that the foreign thread `F` is held back until the leaver of suspension 0 made `k` scheduling
